@@ -156,8 +156,12 @@ def _verify_truncations(case, pool, seq, pop, sel, classes, tag):
     nt = False
     with guard("truncate"):
         sel.fast_nondominated_sorting(pop)
-        fronts_ = {id(p): p.features["front_number"] for p in pop}
-        crowd = {id(p): p.features["crowding_distance"] for p in pop}
+        fronts_ = {id(p): p.features.get("front_number") for p in pop}
+        crowd = {id(p): p.features.get("crowding_distance") for p in pop}
+    if any(v is None for v in fronts_.values()) or any(v is None for v in crowd.values()):
+        raise Violation("truncate", "unranked-after-sort" + tag, "after non-dominated sorting %d of %d members carry no "
+                        "front number / crowding distance" % (sum(1 for p in pop if fronts_[id(p)] is None
+                                                                  or crowd[id(p)] is None), len(pop)))
     design = {id(p): seq[j] for j, p in enumerate(pop)}
     distinct = sorted(set(seq))
     front_of = {}
